@@ -18,7 +18,7 @@
    Outside the model ([WUnmod], counted by the correspondence, never compared): maps of containers
    (SourceLocation.children, reachable only by writing `sourceLocations...` in a .j5s file), map keys and scalar-split
    delimiters that are not ASCII / not ".", float literals of more than 300 runes, a scalar split nested more than
-   3 deep.  No proofs here. *)
+   3 deep, (in CmpbWalkFile.v) a oneof message with two members set.  No proofs here. *)
 From Coq Require Import Ascii String List NArith ZArith Bool Arith.
 From J5V.lib Require Import Text Outcome.
 From J5V.gen Require WalkSchemaGen.
